@@ -460,6 +460,18 @@ def miri_threads_engine(prop, tier, seed):
         plans.append(dict(wl_seed=seed * 1000 + 700 + j, nthreads=r.choice([3, 4]), nops=r.choice([2, 3]), mode="firstuse" if j % 2 == 0 else "shared",
                           fams=[["aes128", "aes192", "aes256"][j % 3], ["aes256", "aes128", "aes192"][j % 3]], miri_seeds=(700 + j * per, 700 + j * per + per),
                           rate=r.choice([0.003, 0.01, 0.03]), variants="aes_auto,aes_auto_z,aes_autoc_z", target="x86_64-ni", grant=True))
+    # storm workloads: one thread pushes 48 blocks through every shared instance while the others clone / convert
+    # the same instances and use the copies - eight crates per run, rotating with the seed (quick), every family (thorough)
+    storm_fams = [f for f, c in fam_crate if c != "kuznyechik" and f in reps] if quick else [f for f, c in fam_crate if c != "kuznyechik"]
+    srot = seed % max(1, len(storm_fams))
+    storm_fams = storm_fams[srot:] + storm_fams[:srot]
+    if quick:
+        # the shuttle engine carries this workload shape for every family at native speed; the interpreter adds
+        # data-race detection for non-atomic state on a rotating sample of eight crates per run
+        storm_fams = storm_fams[:8]
+    for j in range(0, len(storm_fams), 4):
+        plans.append(dict(wl_seed=seed * 1000 + 300 + j, nthreads=r.choice([3, 4]), nops=r.choice([1, 2]), mode="storm", fams=storm_fams[j:j + 4],
+                          miri_seeds=(300 + j * 2, 300 + j * 2 + (2 if quick else 6)), rate=r.choice([0.001, 0.003, 0.01]), variants="-", target="x86_64", grant=False))
     if not quick:
         # thorough: the ARMv8-CE arm (detection granted, five intrinsics modelled) and the aarch64 soft arm under threads
         for j in range(8):
@@ -503,13 +515,20 @@ def shuttle_engine(prop, tier, seed):
     iters = 3000 if quick else 300000
     runs = []
     t0 = time.time()
-    for sched in ("random", "pct"):
-        p = subprocess.run([SHUTTLE, "run", "--seed", str(seed), "--iters", str(iters), "--sched", sched, "--replay-dir", REPLAYS],
-                           capture_output=True, text=True, timeout=3000)
+    wl_iters = 40000 if quick else 3000000
+    for scen, sched, n in (("cache", "random", iters), ("cache", "pct", iters), ("wl", "random", wl_iters), ("wl", "pct", wl_iters)):
+        p = subprocess.run([SHUTTLE, "run", "--seed", str(seed), "--iters", str(n), "--sched", sched, "--replay-dir", REPLAYS] + (["--scenario", "wl"] if scen == "wl" else []),
+                           capture_output=True, text=True, timeout=6000)
         st = re.search(r"^STATS (.*)$", p.stdout, re.M)
         stats = dict(kv.split("=") for kv in st.group(1).split()) if st else {}
-        runs.append((sched, p.returncode, p.stdout, p.stderr, {k: int(v) for k, v in stats.items()}))
-    cov = {"mode": "shuttle (native, hardware arm live): detection caches use shuttle atomics; Random and PCT(depth 3) schedulers; oracle = forced-soft build",
+        runs.append((scen + "-" + sched, p.returncode, p.stdout, p.stderr, {k: int(v) for k, v in stats.items()}))
+    try:
+        instr = json.load(open(os.path.join(BUILD, "shuttle-instrumented.json")))
+    except (OSError, ValueError):
+        instr = []
+    cov = {"mode": "shuttle (native, hardware arm live): detection caches use shuttle atomics; Random and PCT(depth 3) schedulers; scenario 'cache': AES first use, oracle = forced-soft build; scenario 'wl': shared instances of every family and build variant, calls / clones / conversions / constructions from 2-4 threads, one thread driving 48 blocks through every shared instance in half of the executions, oracle = fresh instance per block",
+           "crates_built_from_instrumented_source": instr,
+           "instrumentation": "every core::sync / std::sync primitive in a crate's source becomes shuttle's (a scheduling point); the unchanged tree uses none outside cpufeatures",
            "schedules_explored": sum(r[4].get("executions", 0) for r in runs), "per_scheduler": {r[0]: r[4] for r in runs},
            "first_use_raced_executions": sum(r[4].get("first_use_raced", 0) for r in runs), "wall_s": round(time.time() - t0, 1),
            "limit": "scheduling points exist only at the cache atomics and thread operations; shuttle treats Relaxed as SeqCst (Miri covers weak-memory behaviours)"}
@@ -520,7 +539,7 @@ def shuttle_engine(prop, tier, seed):
         m = re.search(r"^RESULT violation schedule=(\S*) message=(.*)$", out, re.M)
         if m and m.group(1):
             rp = write_replay(f"C15-shuttle-{seed}-{sched}.json", {"format": "block-ciphers-sim-replay/1", "property": "C15", "engine": "shuttle",
-                              "schedule_file": m.group(1), "scheduler": sched, "seed": seed,
+                              "schedule_file": m.group(1), "scheduler": sched, "seed": seed, "scenario": "wl" if sched.startswith("wl") else "cache",
                               "violation": {"property": "C15", "class": "shuttle-schedule", "detail": m.group(2)[:1500]}})
             if "HARNESS" in m.group(2):
                 herr.append("shuttle: " + m.group(2)[:300])
@@ -663,6 +682,117 @@ def cross_build_engine(prop, tier, seed):
     return cov, viols, notes, []
 
 
+# ---------------------------------------------------------------------------
+# C16 under the interpreter: types that exist only on other machines (ARMv8-CE AES, NEON Kuznyechik), other layouts
+
+
+def c16_with_prefix(target, grant, ty):
+    """A type whose image has uninitialised storage (a union's inactive tail): one probe run reads a fresh instance
+    chunk by chunk and reports progress until the interpreter stops; the route cases then run on that prefix."""
+    rc, out, err, wall = run_miri(target, "", ["c16"] + (["--grant"] if grant else []) + ["--probe", ty], 600)
+    size = int(out.split("size=")[1].split()[0]) if "size=" in out else 0
+    offs = [int(x) for x in re.findall(r"^@c16-readable (\d+)$", out, re.M)]
+    lo = max(offs) if offs else 0
+    kind, line = classify_miri_error(err)
+    if lo == 0 or (rc != 0 and not (kind == "ub" and "uninitialized" in line.lower())):
+        return {"target": target, "grant": grant, "types": [ty], "wall": wall, "rc": 0, "ok": 0, "residue": [], "skipped": ty + " (no readable prefix)", "error": None if lo == 0 and kind == "ub" else ("other", line, ty, err[-300:]) if rc != 0 and kind != "ub" else None}
+    r = c16_one(target, grant, [ty], limit=lo)
+    r["prefix"] = (ty, lo, size)
+    return r
+
+
+def c16_one(target, grant, types, limit=None):
+    args = ["c16"] + (["--grant"] if grant else []) + (["--limit", str(limit)] if limit else []) + types
+    rc, out, err, wall = run_miri(target, "", args, 1700)
+    r = {"target": target, "grant": grant, "types": types, "wall": wall, "rc": rc, "ok": 0, "residue": [], "skipped": None, "error": None}
+    last_begin = None
+    for ln in out.splitlines():
+        if ln.startswith("@c16-begin "):
+            last_begin = ln[len("@c16-begin "):]
+        elif ln.startswith("@c16 "):
+            if " RESIDUE " in ln:
+                r["residue"].append(ln[5:])
+            elif " ok " in ln:
+                r["ok"] += 1
+    kind, line = classify_miri_error(err)
+    if kind == "ub" and "uninitialized" in line.lower():
+        # a padding byte: typed writes de-initialise padding in the interpreter's model, so this layout cannot be
+        # inspected byte by byte there. Not a finding.
+        r["skipped"] = last_begin
+    elif kind in ("ub", "race", "deadlock"):
+        r["error"] = (kind, line, last_begin, err[-1500:])
+    elif rc not in (0, 1) or (rc == 1 and not r["residue"]):
+        r["error"] = ("other", line or err[-300:], last_begin, err[-600:])
+    return r
+
+
+def miri_c16_engine(prop, tier, seed):
+    quick = tier == "quick"
+    reg = subprocess.run([NATIVE, "registry"], capture_output=True, text=True).stdout.splitlines()
+    types = [ln.split()[0] for ln in reg if " z=true " in ln]
+    fam_of = {ln.split()[0]: ln.split("fam=")[1].split()[0] for ln in reg if " z=true " in ln}
+
+    def of(variant, fams=None):
+        return [t for t in types if t.startswith(variant + "::") and (fams is None or fam_of[t] in fams)]
+    sizes = ["aes128", "aes192", "aes256"]
+    rot = seed % 3
+    jobs = []
+    # ARMv8-CE arm (detection granted) of the aarch64 autodetect types; the soft arm of the same wrapper; NEON Kuznyechik
+    jobs.append(("aarch64", True, of("aes_auto_z", [sizes[rot]])))
+    jobs.append(("aarch64", True, of("aes_autoc_z", [sizes[(rot + 1) % 3]])))
+    jobs.append(("aarch64", True, of("aes_auto_z", [sizes[(rot + 2) % 3]])))
+    jobs.append(("aarch64", False, of("aes_auto_z", [sizes[(rot + 1) % 3]])))
+    jobs.append(("aarch64", True, of("kuz_z")))
+    # the AES-NI arm as the interpreter sees it, and 32-bit / big-endian layouts of a rotating sample
+    jobs.append(("x86_64-ni", True, of("aes_auto_z", [sizes[rot]])))
+    cheap = [t for t in types if fam_of[t] in CHEAP and not t.startswith(("aes_auto", "kuz"))]
+    if quick:
+        r = (seed * 7) % max(1, len(cheap))
+        sample = (cheap[r:] + cheap[:r])[:12]
+        jobs.append(("i686", False, sample[:6]))
+        jobs.append(("powerpc", False, sample[6:]))
+    else:
+        jobs += [("aarch64", True, of(v, [f])) for v in ("aes_auto_z", "aes_autoc_z") for f in sizes]
+        jobs += [("aarch64", False, of("aes_autoc_z", [f])) for f in sizes]
+        for tg in ("i686", "s390x", "powerpc"):
+            jobs += [(tg, False, cheap[i:i + 8]) for i in range(0, len(cheap), 8)]
+        jobs.append(("i686", False, of("kuz_compact_z")))
+        jobs.append(("s390x", False, of("kuz_compact_z")))
+    jobs = [j for j in jobs if j[2]]
+    t0 = time.time()
+    with ThreadPoolExecutor(max_workers=16) as ex:
+        results = list(ex.map(lambda j: c16_one(*j), jobs))
+    # types whose storage is only partly initialised in the interpreter's model: one by one, on their readable prefix
+    retry = []
+    for r in results:
+        if r["skipped"]:
+            for ty in r["types"]:
+                retry.append((r["target"], r["grant"], ty))
+            r["skipped"] = None
+    if retry:
+        with ThreadPoolExecutor(max_workers=16) as ex:
+            results += list(ex.map(lambda j: c16_with_prefix(*j), retry))
+    cov = {"mode": "c16 (construct by every route, optionally use, drop_in_place, read the storage back: every byte position at which the live images of two keys differ must be zero) interpreted for other machines",
+           "targets": sorted(set(TARGETS[j[0]] for j in jobs)), "processes": len(jobs), "route_cases_ok": sum(r["ok"] for r in results),
+           "types": sum(len(j[2]) for j in jobs), "not_inspectable_padding": [r["skipped"] for r in results if r["skipped"]],
+           "inspected_on_initialised_prefix": [f"{r['prefix'][0]}@{r['target']}: {r['prefix'][1]} of {r['prefix'][2]} bytes" for r in results if r.get("prefix")],
+           "what_is_real": "aarch64: aes/src/armv8* and kuznyechik/src/neon/* with the modelled intrinsics of the exec engine, Drop/zeroize code unmodified; stub: hwcap (granted or denied by the simulator)",
+           "wall_s": round(time.time() - t0, 1)}
+    viols, notes, herr = [], [], []
+    for k, r in enumerate(results):
+        if r["residue"]:
+            rp = write_replay(f"C16-{r['target']}-{k}.miri.json", {"format": "block-ciphers-sim-replay/1", "property": "C16", "engine": "miri", "mode": "c16", "target": r["target"], "grant": r["grant"],
+                              "types": r["types"], "violation": {"property": "C16", "class": "residue", "detail": r["residue"][:6]}})
+            viols.append(("C16", f"C16/residue/{r['target']}/{r['residue'][0].split()[0]}", rp, "; ".join(r["residue"][:3])))
+        elif r["error"] and r["error"][0] in ("ub", "race", "deadlock"):
+            rp = write_replay(f"C16-{r['target']}-{k}.miri.json", {"format": "block-ciphers-sim-replay/1", "property": "C16", "engine": "miri", "mode": "c16", "target": r["target"], "grant": r["grant"],
+                              "types": r["types"], "violation": {"property": "C16", "class": "miri-" + r["error"][0], "detail": r["error"][1], "during": r["error"][2], "stderr_tail": r["error"][3]}})
+            viols.append(("C16", f"C16/miri-{r['error'][0]}/{r['target']}", rp, f"{r['error'][1]} during {r['error'][2]}"))
+        elif r["error"]:
+            herr.append(f"miri c16 {r['target']} {r['types'][:2]}: {r['error'][1]} {r['error'][3][-300:]}")
+    return cov, viols, notes, herr
+
+
 def post(prop, tier, seed):
     evp = os.path.join(VERIF, "evidence", f"{prop}.json")
     ev = json.load(open(evp))
@@ -673,6 +803,8 @@ def post(prop, tier, seed):
         engines = [("miri_exec", miri_exec_engine)]
     elif prop == "C14":
         engines = [("miri_c14", miri_c14_engine)]
+    elif prop == "C16":
+        engines = [("miri_c16", miri_c16_engine)]
     if os.environ.get("VERIF_NO_MIRI"):
         engines = [e for e in engines if not e[0].startswith("miri")]
     if prop in ("C03", "C04", "C12", "C15"):
@@ -722,7 +854,7 @@ def replay(path):
     j = json.load(open(path))
     eng = j.get("engine")
     if eng == "shuttle":
-        p = subprocess.run([SHUTTLE, "replay", j["schedule_file"]], capture_output=True, text=True)
+        p = subprocess.run([SHUTTLE, "replay", j["schedule_file"]] + (["--scenario", "wl"] if j.get("scenario") == "wl" else []), capture_output=True, text=True)
         print(p.stdout.strip())
         if p.returncode == 1:
             print(f"VIOLATION property={j['property']} replay={path}")
@@ -754,6 +886,15 @@ def replay(path):
         print("NOT-REPRODUCED")
         return 0
     if eng == "miri":
+        if j["mode"] == "c16":
+            r = c16_one(j["target"], j.get("grant", False), j["types"])
+            print(json.dumps({k: r[k] for k in r if k != "error"})[:2000])
+            if r["residue"] or (r["error"] and r["error"][0] in ("ub", "race", "deadlock")):
+                print("REPRODUCED")
+                print(f"VIOLATION property={j['property']} replay={path}")
+                return 1
+            print("NOT-REPRODUCED")
+            return 0 if not r["error"] else 2
         if j["mode"] == "c14":
             tmp = os.path.join(BUILD, "tmp", "replay-c14.json")
             os.makedirs(os.path.dirname(tmp), exist_ok=True)
